@@ -4,6 +4,7 @@ import RPVerif.Lemmas.Sched
 import RPVerif.Lemmas.Pool
 import RPVerif.Props.C07
 import RPVerif.Lemmas.SchedCancel
+import RPVerif.Lemmas.ExecFinished
 
 /-!
 # C08 — Cancel stops the named tasks and nothing else
@@ -327,5 +328,24 @@ theorem C08_bystander_keeps_its_place (c : Cfg) (s0 : SchedSt) (hw : s0.waitpool
   rw [hw] at this
   simp at this
   omega
+
+open RPVerif.Exec in
+/-- **"... unless it had already finished"**: for every schedule of the executor's threads, if the process of a
+    task has exited by itself before any cancel request or timeout reached the executor, then whatever follows
+    - requests, timeouts, any number of cancel_task invocations on any thread, in any interleaving with the
+    watcher - the task never ends CANCELED (every cancel_task invocation stops at its "already done" test; the
+    watcher hands the task on with the process's own outcome) -/
+theorem C08_finished_never_canceled (pre post : List Choice) (hq : ∀ c ∈ pre, isReq c = false)
+    (he : (run {} pre).proc.isExited = true) :
+    (run {} (pre ++ post)).outcome ≠ some .canceled := by
+  have h1 := finished_of_quiet _ (quiet_run {} pre hq quiet_init) he
+  have : run {} (pre ++ post) = run (run {} pre) post := by simp [run, List.foldl_append]
+  rw [this]
+  exact (finished_run _ post h1).notC
+
+open RPVerif.Exec in
+/-- test: exit 0, then a cancel request and its cancel_task run to the end - the outcome is DONE -/
+example : (run {} [.intake, .intake, .intake, .intake, .exit 0, .cancelReq, .cancel 0, .cancel 0, .cancel 0,
+                   .watcher, .watcher, .watcher, .watcher, .watcher, .watcher]).outcome = some .done := by decide
 
 end RPVerif.C08
